@@ -122,7 +122,7 @@ impl<'a, E: Elem> GBx<'a, E> {
             if i > j { (x_hi, x_lo) } else { (x_lo, x_hi) }
         } else {
             let li = self.bxs[i].len_idx();
-            let made = with_len!(li; N => lib(|| Bx::from(Box::new(GenericArray::<E, N>::generate(|_| { let _g = enter(Ctx::Work); E::make() })))));
+            let made = with_len!(li; N => lib(|| { let _g = enter(Ctx::Work); Bx::from(Box::new(GenericArray::<E, N>::generate(|_| E::make()))) }));
             match made {
                 Ok(p) => (self.bxs.remove(i), p),
                 Err(p) => return on_panic(cx, "generate (partner)", p),
